@@ -115,6 +115,30 @@ for _pid,_what,_ref in [("C25","runestone round trip over edict lists x etching 
         "Inputs outside the stated alphabets / lattices are not covered. Trusted: the reference evaluators written in the harness and the thin pub wrappers behind feature verif.",
         "DESIGN.md section 5 " + _ref)
 
+add("C13", "crash", "fault_enumeration",
+    "exhaustive enumeration of crash images: every prefix of the storage operation log (kill) and every synced prefix (power loss), recovery on the real Index",
+    "One uninterrupted run of a history with several commits per update, savepoint creation and deletion and a reorg rollback over a logging in-memory storage backend yields the "
+    "operation log; for EVERY operation after the first Index::open the image is reopened with a fresh Index (redb repair runs) against the node as it was: the recovered content must "
+    "equal a cleanly built index of the recovered (height, tip) and continued indexing must reach the content of the uninterrupted run.",
+    "A kill leaves exactly the prefix of issued writes; reordering of un-synced writes and torn sectors are not enumerated (redb's commit protocol). Crashes during creation of the index file "
+    "are outside the indexing path. Trusted: the storage seam (guarded shadowing of redb::Database in Index::open_with_event_sender) and the in-memory backend.",
+    "DESIGN.md sections 4 (E3) and 5 C13")
+for _pid,_what,_ref in [
+  ("C29","ALL 6,930,003 heights: starting sats against running sums, and for the first/second/middle/last sat of every subsidy height every derived attribute (height, third, epoch, period, cycle, degree, decimal, rarity, common, charms) against a reference written from the documentation; rarity supply table against accumulated counts; the common() fast path on every multiple of 9,765,625 below epoch 10","C29"),
+  ("C30","first, second and last sat of all 6,930,000 subsidy heights plus lattices and contiguous windows x {integer, decimal, degree, percentile, name}: parse(print(s)) == s","C30"),
+  ("C31","twelve parsers x ALL strings of length <=3 (4) over a 40-character alphabet containing every syntactic character, plus grammar-directed products over boundary numerals, floats, name lengths and digit counts; a reference grammar on arbitrary-precision decimal strings decides what an accepted string denotes","C31"),
+  ("C32","ALL names of length <=4 (5) and all integers below that count in both directions, boundary lattices, all spacer masks for short names and single/double bits for long names, commitments, the reserved threshold","C32"),
+  ("C33","five networks x ALL heights from genesis to the end of the schedule: monotonicity, 13-letter bound, zero at the end; unlock_height probed around every step of the schedule against a scan","C33"),
+  ("C34","amount lattice x ALL divisibilities 0..38 print->parse->to_integer, and decimal strings x divisibilities against exact decimal-string arithmetic","C34")]:
+    add(_pid, "codec", "exploration", "bounded-exhaustive input enumeration against an independent reference / round-trip identity",
+        "Complete enumeration of the stated finite input space executed against the real functions: " + _what + ".",
+        "Inputs outside the stated alphabets / lattices are not covered. Trusted: the reference evaluators (decimal-string arithmetic) written in the harness.",
+        "DESIGN.md section 5 " + _ref)
+add("C36", "cfg", "exploration", "exhaustive enumeration of configuration-source subsets per setting crossed with every other key",
+    "For each of the 27 settings every non-empty subset of the sources that can carry it (flag, ORD_ variable, config file) with pairwise distinct values, alone and crossed with every other key from every "
+    "single source, goes through Options::try_parse_from + a generated YAML file + Settings::merge; all 27 fields of the result are compared with flag > env > config > default, OR for switches, union for hidden.",
+    "Derived defaults (paths, cache size) are only required not to take a value supplied for another key. Trusted: clap parsing of the generated command lines.", "DESIGN.md sections 4 (E8) and 5 C36")
+
 NOT_YET = "check not built yet in this round (see DESIGN.md build order); not claimed"
 
 def main():
